@@ -25,11 +25,6 @@ instance (ops : List Op) : Decidable (Differs ops) := by unfold Differs; infer_i
 
 theorem refutes {ops : List Op} (h : Differs ops) : ¬ C18_full := fun hf => h (hf H0 0 ops)
 
-/-- fs:stale-metadata-after-copy -/
-theorem C18_counterexample_stale_metadata_after_copy :
-    Differs [.createBucket bka, .putObject bka kA [1] mdV {} none, .putObject bka kB [2] none {} none,
-      .copyObject bka kB bka kA, .getObject bka kA none] := by decide
-
 /-- fs:list-delimiter-not-rolled-up -/
 theorem C18_counterexample_list_delimiter :
     Differs [.createBucket bka, .putObject bka kDE [1] none {} none, .putObject bka kDF [2] none {} none,
@@ -77,6 +72,7 @@ that does not exist is `NoSuchBucket`, not `NoSuchKey`; 0f31b61 delete_objects o
 4609ab3 operations on an upload that does not exist answer `NoSuchUpload`;
 205d9a8 upload_part and upload_part_copy refuse a part number outside 1..10000;
 47e9b00 complete_multipart_upload replaces the metadata and the checksum record of the object it replaces;
+aa68bb7 copy_object gives the destination the metadata and the checksum record of the source, or none;
 b89afe2 ranged reads: covered for all ranges by `C18_get_refines_partial` and `C18_range_check`, the kernel cannot
 evaluate the decimal formatter of `Content-Range`) -/
 
@@ -271,6 +267,25 @@ theorem C18_fixed_stale_sidefiles_after_complete :
     Same [.createBucket bka, .putObject bka kA [1] mdV { crc32 := some [1] } none,
       .createMultipartUpload alice bka kA (some [([116], [117])]), .uploadPart alice bka kA (some 1) 1 [2],
       .completeMultipartUpload alice bka kA (some 1) (some [some 1]), .getObject bka kA none] := by decide
+
+/-- was fs:stale-metadata-after-copy and fs:stale-checksum-after-copy (the witness histories of `corpus/fs.txt` first): a copy
+    from a source without metadata / without a recorded checksum over an object that has one: the object read afterwards has
+    the source's content, no metadata and no checksum, on both sides; a source with metadata and a checksum brings both to a
+    destination that has neither (before the repair the checksum was lost), and to a key that did not exist -/
+theorem C18_fixed_stale_sidefiles_after_copy :
+    Same [.createBucket bka, .putObject bka kA [1] mdV {} none, .putObject bka kB [2] none {} none,
+      .copyObject bka kB bka kA, .getObject bka kA none] ∧
+    Same [.createBucket bka, .putObject bka kA [1] none { crc32 := some [1] } none, .putObject bka kB [2] none {} none,
+      .copyObject bka kB bka kA, .getObject bka kA none] ∧
+    (run H0 0 {} [.createBucket bka, .putObject bka kA [1] mdV { crc32 := some [1] } none,
+      .putObject bka kB [2] none {} none, .copyObject bka kB bka kA, .getObject bka kA none, .headObject bka kA]).2.drop 4 =
+      [.get [2] 1 none (some (etagOf H0 [2])) [] {}, .head 1 (some (etagOf H0 [2])) []] ∧
+    Same [.createBucket bka, .putObject bka kA [1] mdV { crc32 := some [1] } none, .putObject bka kB [2] none {} none,
+      .copyObject bka kA bka kB, .getObject bka kB none, .copyObject bka kA bka kX, .getObject bka kX none,
+      .getObject bka kA none] ∧
+    (run H0 0 {} [.createBucket bka, .putObject bka kA [1] mdV { crc32 := some [1] } none,
+      .putObject bka kB [2] none {} none, .copyObject bka kA bka kB, .getObject bka kB none]).2.getLast? =
+      some (.get [1] 1 none (some (etagOf H0 [1])) [([109], [118])] { crc32 := some [1] }) := by decide
 
 /-- was fs:suffix-range-longer-than-object / fs:suffix-range-huge-panics: the model no longer fails or panics (the answer
     itself is compared by `C18_get_refines_partial`) -/
